@@ -976,12 +976,12 @@ Definition fresh (v : version) (doc : json) (a : access) : result := fst (step v
 Definition conv_id (j : json) : json := j.
 
 Record op_view := {
-  v_path : str; v_method : str; v_raw : json;
+  v_path : str; v_method : str; v_scope : str; v_raw : json;
   v_locs : list (res (list (json * json) * list json));      (* path, header, cookie, query: properties, required *)
   v_body : list (json * res json * bool) }.                   (* media type, schema, required *)
 
 Definition view (conv : json -> json) (v : version) (o : operation) : op_view :=
-  {| v_path := o_path o; v_method := o_method o; v_raw := o_raw o;
+  {| v_path := o_path o; v_method := o_method o; v_scope := o_scope o; v_raw := o_raw o;
      v_locs := map (params_to_schema conv v) [o_pathp o; o_headers o; o_cookies o; o_query o];
      v_body := map (fun p => (p_media p, as_schema conv v p,
                               match p_required p with Val r => truthy r | Raise _ => false end)) (o_body o) |}.
@@ -1112,15 +1112,15 @@ Definition self_ok (v : version) (doc : json) (a : access) : bool :=
   end.
 
 (* two lookups that address the same cache entry (same traversal key, or b is by the operationId
-   under which a stores its operation) build the same operation *)
-Definition pair_ok (v : version) (doc : json) (a b : access) : bool :=
+   under which a stores its operation) build the same operation, for the given notion of same *)
+Definition pair_ok_gen (eqb : operation -> operation -> bool) (v : version) (doc : json) (a b : access) : bool :=
   match pgo v doc a with
   | Some (tka, Val oa, idfa, _) =>
       match pgo v doc b with
       | Some (tkb, bb, _, _) =>
-          (negb (tkey_eqb tka tkb) || match bb with Val ob => op_core_eqb oa ob | Raise _ => false end)
+          (negb (tkey_eqb tka tkb) || match bb with Val ob => eqb oa ob | Raise _ => false end)
           && match idfa oa, b with
-             | Some i, AById j => negb (py_eq (JStr j) i) || match bb with Val ob => op_core_eqb oa ob | Raise _ => false end
+             | Some i, AById j => negb (py_eq (JStr j) i) || match bb with Val ob => eqb oa ob | Raise _ => false end
              | _, _ => true
              end
       | None => match idfa oa, b with
@@ -1131,7 +1131,13 @@ Definition pair_ok (v : version) (doc : json) (a b : access) : bool :=
   | _ => true
   end.
 
-Definition coherent (v : version) (doc : json) (U : list access) : bool :=
+Definition coherent_gen (eqb : operation -> operation -> bool) (v : version) (doc : json) (U : list access) : bool :=
   forallb (self_ok v doc) U
-  && forallb (fun a => forallb (pair_ok v doc a) U) U
+  && forallb (fun a => forallb (pair_ok_gen eqb v doc a) U) U
   && (negb (existsb is_by_id U) || populate_ok doc).
+
+(* same operation up to the recorded scope / same operation *)
+Definition op_full_eqb (a b : operation) : bool := op_core_eqb a b && str_eqb (o_scope a) (o_scope b).
+Definition pair_ok := pair_ok_gen op_core_eqb.
+Definition coherent := coherent_gen op_core_eqb.
+Definition coherent_strict := coherent_gen op_full_eqb.
